@@ -257,6 +257,8 @@ def deserialize_address(address, encoding=None, network=None):
     if encoding is None or encoding == 'base58':
         try:
             address_bytes = change_base(address, 58, 256, 25)
+            if len(address_bytes) != 25 or base58encode(address_bytes) != address:
+                raise EncodingError("Not a canonical Base58Check address of 25 bytes")
         except EncodingError:
             pass
         else:
